@@ -277,6 +277,12 @@ func checkPmtCodecs(k *sim.Kernel, name string, tc *TsContent, pub *PubState) {
 	if len(tc.Audio) > 0 && pub.Plan.AudioCodec == media.SoundAAC && tc.AType != 0x0f {
 		k.Violate("C06.pmt", "%s: PMT declares audio stream_type 0x%02x for an AAC stream", name, tc.AType)
 	}
+	if len(tc.Audio) > 0 && pub.Plan.AudioCodec == media.SoundOpus && tc.AType != 0x06 {
+		k.Violate("C06.pmt", "%s: PMT declares audio stream_type 0x%02x for an Opus stream (private stream 0x06 + registration expected)", name, tc.AType)
+	}
+	if tc.OpusNoControlHeader {
+		k.Violate("C06.ts-opus-no-control-header", "%s: the Opus access units in TS do not begin with the opus_control_header (0x7fe.. prefix + au_size) a transport-stream demuxer needs to delimit them; the PES payload is the bare Opus packet", name)
+	}
 }
 
 func genC06Plan(r *sim.Rng, tier string) RelayPlan {
@@ -294,6 +300,22 @@ func genC06Plan(r *sim.Rng, tier string) RelayPlan {
 		p := &pl.Pubs[i]
 		if p.AudioCodec != 0 {
 			p.AudioCodec = media.SoundAAC
+			switch r.Intn(10) {
+			case 0, 1:
+				p.AudioCodec = media.SoundOpus // TS (private stream + registration descriptor) and RTSP
+			case 2:
+				p.AudioCodec = []int{media.SoundG711A, media.SoundG711U}[r.Intn(2)] // RTSP only
+			}
+			if p.AudioCodec != media.SoundAAC {
+				// no AudioSpecificConfig message in a stream that is not AAC
+				kept := p.Units[:0:0]
+				for _, u := range p.Units {
+					if u.Kind != media.KAudioSeq {
+						kept = append(kept, u)
+					}
+				}
+				p.Units = kept
+			}
 		}
 		if p.VideoCodec != 0 && r.Bool(0.3) {
 			p.VideoCodec = media.CodecHEVC
